@@ -312,6 +312,11 @@ type mexpect struct {
 	x, y, mods int
 	buttons    int // -1: the statement does not fix the buttons of this report
 	motion     bool
+	// forbid: buttons the event must NOT carry although its exact mask is not fixed.  xterm defines codes 66/67 as
+	// wheel left/right (buttons 6/7); the statement wants primary/middle/secondary/wheel-up/wheel-down "as xterm defines
+	// them" (codes 0/1/2/64/65), so a report of wheel-left/right must not claim any of those five (what else it says, if
+	// anything, the statement leaves open)
+	forbid int
 }
 
 func clipInt(v, n int) int {
@@ -382,6 +387,7 @@ func specMouse(reps []mreport, w, hh int) []mexpect {
 				e.buttons = int(tcell.WheelDown)
 			} else {
 				e.buttons = -1
+				e.forbid = int(tcell.WheelUp | tcell.WheelDown | tcell.Button1 | tcell.Button2 | tcell.Button3)
 				held = 2 // the statement does not say whether such a code counts as a press
 			}
 		case low == 3: // X11 release; in SGR mode a press of "no button" is not defined
@@ -466,6 +472,9 @@ func mouseOracle(ti *terminfo.Terminfo, cs string, w, hh int, fs []feed, all []s
 				cls = "x11-drag-loses-button"
 			}
 			add(cls, fmt.Sprintf("%s, want buttons %d", desc, e.buttons))
+		}
+		if e.buttons < 0 && b&e.forbid != 0 {
+			add("mouse-hwheel-misreported", fmt.Sprintf("%s: code %d is xterm's wheel-left/right; the event claims button mask %d (wheel-up/down or a primary/middle/secondary button), which xterm defines as codes 64/65/0/1/2", desc, r.code&0xff, b))
 		}
 	}
 	return fsx
@@ -1006,7 +1015,11 @@ func genKeySeq(g *h.Gen) {
 		g.Emit("keyseq %s esc 1 1b -", name)
 		g.Emit("keyseq %s del 1 7f -", name)
 		g.Emit("keyseq %s del 0 7f -", name)
-		np := g.N(40, len(tb)*len(tb))
+		npT := len(tb) * len(tb)
+		if npT > 12000 {
+			npT = 12000 // all pairs would be ~8M cases over the database: sampled (the pair law itself is the theorem concat_decodes)
+		}
+		np := g.N(40, npT)
 		for i := 0; i < np && len(tb) > 0; i++ {
 			a, b := h.Pick(g.R, tb), h.Pick(g.R, tb)
 			g.Emit("keyseq %s pair 1 %s %s", name, h.Hex([]byte(a)), h.Hex([]byte(b)))
